@@ -1,8 +1,9 @@
 CONSTANT KTab <- MC_KTab
-CONSTANT Kernels <- K3
+CONSTANT Kernels <- K4
 CONSTANT NWs = {16}
 CONSTANT Timeouts = {TRUE}
 CONSTANT TickEnabled = TRUE
+CONSTANT ReduceIdle = TRUE
 CONSTANT DeadlineTestFirst = TRUE
 SPECIFICATION Spec
 INVARIANT TypeOK
